@@ -8,7 +8,7 @@ TIE_FUNCS = ['internal/configs/configurator.go:keyToFileName', 'internal/configs
 HARNESS = "vh-configs"
 PARALLEL = 8
 RULE = ("operation sequences (3..15 ops) of AddOrUpdate/Delete/BatchDelete for Ingresses, VirtualServers and TransportServers (TCP and TLS "
-        "passthrough) through the real Configurator and LocalManager on a temporary configuration root with the real templates; namespaces and "
+        "passthrough; the batch path of TransportServers is UpdateTransportServers(nil, keys), taken when a namespace stops being watched) through the real Configurator and LocalManager on a temporary configuration root with the real templates; namespaces and "
         "names over the alphabet {a,b,-,.} so that file names collide whenever the naming scheme allows it; a restart (new Configurator and "
         "LocalManager on the same root) at a random point followed by re-adding a random subset of what was served. After every op the "
         "directory listings, the resource each file was generated from (read back from the file) and the passthrough map are compared with "
@@ -89,8 +89,8 @@ def gen_case(rng, maxops=15, restart=True):
             served.pop(k)
             ops.append("d%s|%s/%s" % (k[0], k[1], k[2]))
         else:
-            kind = rng.choice(["i", "v"])
-            ks = [k for k in sorted(served) if k[0] == kind][: 1 + rng.below(2)]
+            kind = rng.choice(["i", "v", "t"])
+            ks = [k for k in rng.shuffle(sorted(served)) if k[0] == kind][: 1 + rng.below(3)]
             if ks:
                 for k in ks:
                     served.pop(k)
@@ -123,9 +123,30 @@ def gen_restart_pt(rng):
     return "files plus=%d ops=%s" % (rng.below(2), ";".join(ops))
 
 
+def gen_batch_ts(rng):
+    """A namespace stops being watched: its TransportServers — TLS passthrough ones among them — are deleted in one
+    UpdateTransportServers(nil, keys) batch; afterwards an unrelated TransportServer is added (the hosts map is regenerated)."""
+    ops, uid, tss = [], 0, []
+    for ns in ["a", "b"]:
+        for name in rng.shuffle(["a", "b", "c"])[: 1 + rng.below(3)]:
+            uid += 1
+            host = ("h%d.ex" % uid) if rng.chance(2, 3) else "_"
+            tss.append((ns, name))
+            ops.append("at|%s|%s|%d|%s" % (ns, name, uid, host))
+    gone = [t for t in tss if t[0] == "a"]
+    if rng.chance(1, 3):
+        gone = gone[: 1 + rng.below(len(gone))]
+    ops.append("bt|" + "+".join("%s/%s" % t for t in rng.shuffle(gone)))
+    uid += 1
+    ops.append("at|b|z|%d|%s" % (uid, ("h%d.ex" % uid) if rng.chance(1, 2) else "_"))
+    if rng.chance(1, 2):
+        ops.append("dt|b/z")
+    return "files plus=%d ops=%s" % (rng.below(2), ";".join(ops))
+
+
 def gen(rng, tier):
     n = 300 if tier == "quick" else 3000
-    return ([dict(line=gen_case(rng, 15 if tier == "quick" else 25), tags=["sequence"]) for _ in range(n)] +
+    return ([dict(line=gen_batch_ts(rng), tags=["batch-transportservers"]) for _ in range(n // 6)] +[dict(line=gen_case(rng, 15 if tier == "quick" else 25), tags=["sequence"]) for _ in range(n)] +
             [dict(line=gen_restart_pt(rng), tags=["restart-passthrough"]) for _ in range(n // 6)])
 
 
@@ -166,7 +187,7 @@ def spec_check(line, impl):
         elif f[0] in ("di", "dv", "dt"):
             ns, name = f[1].split("/")
             served.pop((f[0][1], ns, name), None)
-        elif f[0] in ("bi", "bv"):
+        elif f[0] in ("bi", "bv", "bt"):
             for k in f[1].split("+"):
                 ns, name = k.split("/")
                 served.pop((f[0][1], ns, name), None)
